@@ -30,8 +30,22 @@ def _symv(v):
     return _sym(v)
 
 
+def _shared_memos(p, led, res, rid, files, what, witness):
+    led.rule(rid, "no memo that outlives the object is filled under a key that omits instance settings the memoised computation reads", 0)
+    from ..rules import stale_shared_memos
+    hits = stale_shared_memos(p, res, set(files))
+    for fi, n, name, missing in hits:
+        led.fail(rid, f"{fi.qual} ▸ `{short(n, 60)}`", where(fi, n),
+                 f"`{name}` lives at module level (shared by every instance) and is filled under a key that does not cover {', '.join('self.' + a for a in missing[:4])}, which the computation reads: {what}",
+                 witness=witness)
+    if not hits:
+        led.ok(rid, "module-level memos", files[0], "no module-level memo is filled by a method under a key that omits instance state", nontrivial=False)
+
+
 def run(p, led, tier):
     res = Resolver(p)
+    _shared_memos(p, led, res, "C10-R8", FILES, "a gate with other settings is answered with a verdict computed under these",
+                  "a strict validator (max_depth=2) sees a deep payload first; a lenient one (max_depth=5) then reads the clipped depth 3 from the shared memo and admits what it must refuse")
     mem = p.cls("Membrane", MB)
     tsig = p.cls("ThreatSignature", MB)
     TL = p.cls("ThreatLevel", MB)
@@ -273,11 +287,18 @@ def run(p, led, tier):
         led.ok("C10-R1", key, where(filt, filt.node), "all three spellings are still scanned after the history")
 
     # a store changed through the API *after* an input was admitted must be consulted the next time the same input arrives
-    for api in ("add_signature", "learn_threat", "import_antibodies", "set_threshold"):
-        def go_hist(o):
+    for api0 in ("add_signature", "learn_threat", "import_antibodies", "set_threshold", "learn_threat ▸ pattern already known at a lower level", "import_antibodies ▸ pattern already known at a lower level"):
+        api = api0.split(" ▸ ")[0]
+        known_before = " ▸ " in api0
+
+        def go_hist(o, api=api, known_before=known_before):
             it, m, sig = build(o, "DANGEROUS", "SAFE", "SAFE", "SAFE")
             m.fields["signatures"] = []
             m.fields[LEARNED].clear()
+            if known_before:
+                # the same pattern was learned earlier as merely SUSPICIOUS (below the blocking threshold): learning it again
+                # as CRITICAL is a new, stricter rule — the reported level is the maximum over what matches
+                it.call_fi(p.find_method(mem, "learn_threat"), [m, "late", it.enum_member(TL, "SUSPICIOUS"), "seen once"], {})
             r1 = it.call_fi(filt, [m, sig], {})
             if r1.fields["allowed"] is not True:
                 return None
@@ -296,7 +317,7 @@ def run(p, led, tier):
             dec = {d[2]: d[3] for d in it.decisions}
             return dict(consulted="match(late)" in dec, matched=dec.get("match(late)"), allowed=r2.fields["allowed"])
         paths = [r for _, r in explore(go_hist, max_paths=200) if r is not None]
-        key = f"Membrane.filter ▸ same input again after {api}()"
+        key = f"Membrane.filter ▸ same input again after {api0 if known_before else api + '()'}"
         badh = []
         for r in paths:
             if api != "set_threshold":
